@@ -3,7 +3,7 @@
    pair_notes, sort_notes, tempo_list, adjust_time; Model/C06_perf.v: sanitize, rs_notes, rs_times) is
    tied to partitura/io/exportmidi.py, importmidi.py, performance.py and utils/music.py by the
    correspondence run by harness/props/c06.py on every check. *)
-From PV Require Import Lib.Base Lib.Round Model.C12 Model.C06 Model.C06_perf Proofs.C06_lib Proofs.C06 Proofs.C06_pair Proofs.C06_save Proofs.C06_merge Proofs.C06_check Proofs.C06_sec Proofs.C06_perf Proofs.C06_tracks.
+From PV Require Import Lib.Base Lib.Round Model.C12 Model.C06 Model.C06_perf Proofs.C06_lib Proofs.C06 Proofs.C06_pair Proofs.C06_save Proofs.C06_merge Proofs.C06_check Proofs.C06_sec Proofs.C06_perf Proofs.C06_tracks Model.C06_hist Proofs.C06_hist.
 From Coq Require Import QArith Qabs Sorted Permutation.
 #[local] Open Scope Z_scope.
 
@@ -358,3 +358,57 @@ Example save_load_parts_example :
   map lp_track (fst (load 500000 false (save 0 480 500000 false ex_ps))) = [0; 1].
 Proof. exact save_load_parts_example_lemma. Qed.
 Print Assumptions save_load_parts_example.
+
+(* ======================================================================================
+   State carried between calls.  The machine Model.C06_hist: part objects by identity, the caller's list,
+   the Performance made from it (two views sharing the objects); steps = an object gets new content (any
+   edit, renumbering, new part), a view gets other members (list edits; Performance(list); perf[i] = part),
+   a save through a view.  For EVERY history: the result of a save is Model.C06.save of what the view
+   holds at that moment -- a function of the current state only, whatever was saved, edited or replaced
+   before (the harness runs the machine on the edits of its live histories and compares each save of the
+   implementation with it: check_hist). *)
+Theorem hist_obs_current : forall rule h1 a h2 w,
+  nth (hsaves h1) (hrun rule w (h1 ++ HSave a :: h2)) [] = hobserve rule (hstate w h1) a.
+Proof. exact hist_obs_current_lemma. Qed.
+Print Assumptions hist_obs_current.
+
+(* hence two histories whose edits add up to the same state give the same result for the same call *)
+Theorem hist_obs_state_only : forall rule h1 h1' a h2 h2' w w',
+  hstate w h1 = hstate w' h1' ->
+  nth (hsaves h1) (hrun rule w (h1 ++ HSave a :: h2)) [] = nth (hsaves h1') (hrun rule w' (h1' ++ HSave a :: h2')) [].
+Proof. exact hist_obs_state_only_lemma. Qed.
+Print Assumptions hist_obs_state_only.
+
+(* a save changes nothing: it can be dropped from a history without changing any later state; one result per save *)
+Theorem hist_save_pure : forall h1 a h2 w, hstate w (h1 ++ HSave a :: h2) = hstate w (h1 ++ h2).
+Proof. exact hist_save_pure_lemma. Qed.
+Print Assumptions hist_save_pure.
+
+(* the frames the correspondence checker compares are (state the edits so far add up to, arguments), and the
+   run is Model.C06.save on them *)
+Theorem hist_frames : forall rule h w,
+  hrun rule w h = map (fun f => hobserve rule (fst f) (snd f)) (hframes w h) /\
+  List.length (hrun rule w h) = hsaves h /\
+  (forall h1 a h2 d, h = h1 ++ HSave a :: h2 -> nth (hsaves h1) (hframes w h) d = (hstate w h1, a)).
+Proof.
+  intros rule h w. split; [exact (hrun_frames_lemma rule h w)|]. split; [exact (hrun_length_lemma rule h w)|].
+  intros h1 a h2 d ->. exact (hframes_nth_lemma h1 a h2 w d).
+Qed.
+Print Assumptions hist_frames.
+
+(* non-vacuity: one object in both views, edited between two saves through the Performance; the caller's list
+   shortened meanwhile does not reach the Performance; the second result is that of the edited parts and differs
+   from the first *)
+Example hist_example :
+  hview_parts (hstate hworld0 hx_h1) VPerf = [hx_p0'; hx_p1] /\
+  hview_parts (hstate hworld0 hx_h1) VList = [hx_p1] /\
+  nth 1 (hrun 0 hworld0 (hx_h1 ++ [HSave hx_a])) [] = save 0 480 500000 false [hx_p0'; hx_p1] /\
+  nth 0 (hrun 0 hworld0 (hx_h1 ++ [HSave hx_a])) [] <> nth 1 (hrun 0 hworld0 (hx_h1 ++ [HSave hx_a])) [].
+Proof. exact hist_example_lemma. Qed.
+Print Assumptions hist_example.
+
+(* a machine that memoises the first result (no invalidation) does not have the property *)
+Example hist_memo_refuted : exists w h1 a h2,
+  nth (hsaves h1) (hrun_memo 0 None w (h1 ++ HSave a :: h2)) [] <> hobserve 0 (hstate w h1) a.
+Proof. exact hist_memo_refuted_lemma. Qed.
+Print Assumptions hist_memo_refuted.
